@@ -11,7 +11,7 @@ TEXT = {
  "C04": ("Same for lines (UAX #14 with the Example-7 tailoring, three-valued verdicts, mustBreak); theorems line_verdicts_eq_uax14 / line_segments_eq_uax14 / mustBreak_iff.", "3 C04"),
  "C05": ("Theorems for all byte lists and all states: progress (>=1 rune, >=1 byte), no over-run, segment ends at a decoded-rune boundary, chain partitions the input in at most len(input) calls, empty input gives zero values; for all five loop shapes. Memory aliasing is monitored on the real code, not proved.", "3 C05"),
  "C06": ("Theorems: from every coherent state the reported width is the documented width of the cluster's code points (composition rule proved equal to the loop's fold), coherence is preserved along the chain, StringWidth is the sum; per-code-point widths compared exhaustively (RW) and clusters against the Lean spec (WIDTHSPEC).", "3 C06"),
- "C07": ("Theorems for all 1,114,112 code points without enumeration: each regenerated table is sorted (kernel check) hence binary search = interval lookup; every lookup, fast paths included, equals the committed Unicode 15.0.0 reference classification (kernel-evaluated walks over 5515 reference rows, one module per table); code points with the same reference values are interchangeable anywhere in a text (C0xU.*_same_class, width_same_class); every code point's letter is in the alphabet of the certificates, which makes C01-C04 unconditional. Real lookups compared with the reference on all code points (REF), signature independence on the real functions (E3b), class handling through E3/SPEC/WIDTHSPEC.", "3 C07"),
+ "C07": ("Theorems for all 1,114,112 code points without enumeration: each regenerated table is sorted (kernel check) hence binary search = interval lookup; every lookup, fast paths included, equals the committed Unicode 15.0.0 reference classification (kernel-evaluated walks over 5515 reference rows, one module per table); code points with the same reference values are interchangeable anywhere in a text (C0xU.*_same_class, width_same_class); every code point's letter is in the alphabet of the certificates, which makes C01-C04 unconditional. Real lookups compared with the reference on all code points (REF); signature independence on the real code for every code point, at transition level (E3b) and through the whole public API on probe strings (E3c); class handling through E3/SPEC/WIDTHSPEC.", "3 C07"),
  "C08": ("Theorems: pack/unpack round trip under the proved state ranges; Step is a first-cut loop over the lock-step product of the four transition functions; its clusters are FirstGraphemeCluster's; its flags decode to the line/word/sentence verdicts of the four specialised runs at the cluster's end.", "3 C08"),
  "C09": ("The model has one definition per byte/string pair; the translator re-checks on every run that the Go twins are the same text up to the renaming (twin normalisation), except StepString's early return, which is proved unobservable from every coherent state and along the whole chain.", "3 C09"),
  "C10": ("Theorems: every loop result depends on the input only through the decoded scalar values; re-encoding (ill-formed byte -> U+FFFD) preserves them; hence identical chains (segments in code points, widths, flags, states) on b and fix b; totality by construction, index safety of the table search.", "3 C10"),
